@@ -1,5 +1,6 @@
 """C08 - reported free Wyckoff parameters regenerate the atoms of their set.  Spec: Crystal.tla (V08)."""
 from ..common import Run, scratch
+from .. import crystals
 from . import symcommon
 
 
@@ -88,7 +89,8 @@ def run(tier):
         for i, l in enumerate(letters):
             if tier == "quick" and (sg + i) % 2:
                 continue
-            jobs.append((sg, 0, 1, [l], 150, "C08"))
+            # polar groups get a second presentation with the origin on an atom (free parameters exactly 0)
+            jobs.append((sg, 0, 2 if crystals.is_polar(sg) else 1, [l], 150, "C08"))
         # pairs of letters (two occupied positions interact in the solver's verification step)
         for i in range(len(letters) - 1):
             if (sg + i) % (6 if tier == "quick" else 2) == 0:
